@@ -345,3 +345,23 @@ claim(
     "fairness/liveness of the lock.",
     "DESIGN.md section 5 C24",
 )
+
+claim(
+    "C06",
+    "FLOW",
+    "static: every data-driven repetition of a block in a render method must be lexically inside a limit-checking, length-exporting context manager; shape of the limit arithmetic and carry",
+    "Full structural decision of 'every construct that repeats a block contributes its length': "
+    "in all node render methods each for-statement/comprehension over a non-template value whose "
+    "body renders a child (for, tablerow, include-with-array, render-for; sync and async) is "
+    "inside `with ctx.loop(ns, forloop)` or `with ctx.iterations(n)` whose length is that of the "
+    "iterated value; no tag calls raise_for_loop_limit without exporting; loop/iterations check "
+    "first, export (push / multiply the carry) and undo in finally; raise_for_loop_limit compares "
+    "the product of stack lengths, the new length and the carry with `>` and raises "
+    "LoopIterationLimitError; copy(carry_loop_iterations=True) carries the product into every "
+    "context it builds and render, call and block request it. Hence no block runs while the "
+    "product of enclosing lengths exceeds N, for every nesting.",
+    "Repetitions over fields of the parsed template are source-bounded; MultiExpressionBlockNode "
+    "(once per matching when-alternative) is a reviewed source-bounded row. Custom tags are out "
+    "of scope.",
+    "DESIGN.md section 5 C06",
+)
